@@ -144,7 +144,12 @@ pub fn run_check(id: &str, tier: Tier) -> i32 {
     let t0 = std::time::Instant::now();
     for p in &chk.parts {
         let sc = scenario_by_name(&p.scenario, &p.params);
-        let lim = Limits::new(p.dev_budget, p.wall_s, tier == Tier::Quick);
+        let mut lim = Limits::new(p.dev_budget, p.wall_s, tier == Tier::Quick);
+        lim.known = load_findings()
+            .into_iter()
+            .filter(|f| f.status == "open" && f.property == chk.property)
+            .map(|f| (f.rule, f.witness))
+            .collect();
         let st = explore(&lim, |c, e| sc(c, e));
         eprintln!(
             "[{}] part {} {}: executions={} transitions={} states={} traces={} nontrivial={} max_depth={} violations={} capped={} wall={:.1}s",
